@@ -12,6 +12,7 @@ import (
 	"os"
 	"os/exec"
 	"path/filepath"
+	"sort"
 	"strings"
 	"testing"
 	"time"
@@ -84,6 +85,14 @@ func drawGrammarText(t *rapid.T) ([]byte, string, *gspec.Grammar) {
 			b[i] = byte(gspec.U(t, 256, "byte"))
 		}
 		return b, "bytes", nil
+	case k < 10:
+		// every class name the front-end's table accepts must also be known to the builder
+		// (the two lists are separate files)
+		if names := acceptedClassNames(); len(names) > 0 {
+			n := gspec.Pick(t, names, "classname")
+			return []byte(gspec.Pick(t, []string{"A = [\\p{" + n + "}]", "A = [^\\p{" + n + "}a]i", "A = 'x' [\\p{" + n + "}\\p{" + gspec.Pick(t, names, "classname2") + "}]*"}, "classtext")), "tiny", nil
+		}
+		fallthrough
 	case k < 14:
 		return []byte(gspec.Pick(t, []string{"", "\n", "A", "A =", "A = ", "{", "{}", "{}\nA='a'", "A = 'a'", "A = B", "A = A", "A = 'a' A = 'b'", "A = %{x}", "A = 'a' //{x} 'b'", "=", "A 'x' = .", "A = [", "A = \"", "A = 'ab'", "A = []", "A = [^]", "A = ''", "A = [\\p{L]]", "A = [\\p{Greek]x]", "A = \"\\400\"", "A = 'a' {", "A = %{", "A = 'a' //{",
 			"A = 'a' {\n}", "A = 'a' {}", "A = &{\n} 'a'", "A = #{\n} 'a'", "{\n}\nA = 'a' {\n}", "A = 'a' {\n\n}", "A = 'a' { }"}, "tiny")), "tiny", nil
@@ -95,6 +104,20 @@ func drawGrammarText(t *rapid.T) ([]byte, string, *gspec.Grammar) {
 		return mutateText(t, text), "mutated:" + prof, g
 	}
 	return text, "valid:" + prof, g
+}
+
+var classNamesOnce []string
+
+// acceptedClassNames reads the Unicode class names the front-end accepts from the tree under
+// test (unicode_classes.go is compiled into this binary's package: the map itself).
+func acceptedClassNames() []string {
+	if classNamesOnce == nil {
+		for n := range unicodeClasses {
+			classNamesOnce = append(classNamesOnce, n)
+		}
+		sort.Strings(classNamesOnce)
+	}
+	return classNamesOnce
 }
 
 func drawFlags(t *rapid.T, g *gspec.Grammar) genFlags {
